@@ -8,4 +8,9 @@ import Proofs.C17
 #print axioms TW.C17.nonsquare_error
 #print axioms TW.C17.too_few_points_general
 #print axioms TW.C17.too_few_points_shift
+#print axioms TW.C17.collinear_normal_singular
 #print axioms TW.C17.collinear_general_singular
+#print axioms TW.C17.collinear_general_raises_singular
+#print axioms TW.C17.coincident_general_singular
+#print axioms TW.C17.coincident_general_raises_singular
+#print axioms TW.C17.noncollinear_general_returns
